@@ -35,6 +35,8 @@ var Harnesses = map[string]func(){
 	"cont.H_Instances":        cont.H_Instances,
 	"cont.H_ReplacedSibling":  cont.H_ReplacedSibling,
 	"cont.H_TwoGroups":        cont.H_TwoGroups,
+	"cont.H_TypedErrors":      cont.H_TypedErrors,
+	"cont.H_ScopeChurn":       cont.H_ScopeChurn,
 	"smoke.H_Clone":           smoke.H_Clone,
 	"cont.H_ReleaseChild":     cont.H_ReleaseChild,
 	"cont.H_CloseInCallback":  cont.H_CloseInCallback,
